@@ -93,8 +93,16 @@ fn key_of(id: u8) -> H {
     if id == 0 {
         ZERO_H
     } else {
+        // keys 2 and 3 agree in their first eight bytes, key 4 starts with eight zero bytes: different keys all the
+        // same (a key is compared as a whole, like every hash here)
         let mut k = [0u8; 32];
-        Rng::new(0x6B65_7900 + id as u64).fill(&mut k);
+        Rng::new(0x6B65_7900 + if id == 3 { 2 } else { id as u64 }).fill(&mut k);
+        if id == 3 {
+            Rng::new(0x6B65_7903).fill(&mut k[8..]);
+        }
+        if id == 4 {
+            k[..8].fill(0);
+        }
         k
     }
 }
@@ -351,7 +359,8 @@ fn check_lookups(rep: &mut RunReport, bytes: &[u8], want: &ModelShard, plan: &Pl
     }
     let xkeys: Vec<&H> = want.xorbs.keys().collect();
     let find_xorb = |r: &mut ShortReader, h: &H| -> Result<Option<MDBCASInfo>, String> {
-        let mut idx = [0u32; 8];
+        // (length inferred from the signature, so a change of the buffer size still builds and is judged by its behaviour)
+        let mut idx = Default::default();
         let n = info.get_cas_info_index_by_hash(r, &m_of(h), &mut idx).map_err(|e| e.to_string())?;
         for &i in idx.iter().take(n) {
             use std::io::{Seek, SeekFrom};
@@ -780,6 +789,25 @@ async fn run_dir_history(plan: &Plan, models: &[ModelShard], rep: &mut RunReport
                             let srcm = model_of_parsed(&src);
                             check_keyed_export(rep, &ob, &srcm, &kh, *flags, now, *valid_secs, oi);
                             check_keyed_equivalence(rep, &root, &path, &out.path, &srcm, oi, plan.query_seed ^ oi as u64).await;
+                            // the upload path re-exports a shard with an expiry before it is cached: a keyed shard
+                            // stays the same keyed shard (key, keyed hashes, tables, records), only the footer's times are set
+                            if mix(&[plan.query_seed, oi as u64, 0xE2]) % 3 == 0 {
+                                let rd = root.join(format!("re-export-{oi}"));
+                                let _ = std::fs::create_dir_all(&rd);
+                                match out.export_with_expiration(&rd, Duration::from_secs(*valid_secs)) {
+                                    Ok(o2) => {
+                                        let b2 = std::fs::read(&o2.path).unwrap_or_default();
+                                        let before = rep.violations.len();
+                                        check_keyed_export(rep, &b2, &srcm, &kh, *flags, now, *valid_secs, oi);
+                                        for v in rep.violations.iter_mut().skip(before) {
+                                            v.site = format!("re-export-with-expiry:{}", v.site);
+                                        }
+                                        check_keyed_equivalence(rep, &root, &path, &o2.path, &srcm, oi, plan.query_seed ^ oi as u64 ^ 0xE2).await;
+                                        rep.count("ops:keyed_export_re-exported_with_expiry", 1);
+                                    },
+                                    Err(e) => rep.violate("C18.a", "re-export-with-expiry:error", format!("op {oi}: {e}")),
+                                }
+                            }
                             exports.push((t as u8, *key, *flags, now.saturating_add(*valid_secs), srcm.clone(), h_of(&out.shard_hash)));
                             export_paths.push(out.path.clone());
                             for x in srcm.xorbs.values() {
@@ -1219,7 +1247,7 @@ fn gen(seed: u64, run: u64, focus: &str, tier: Tier) -> Plan {
                 1 => DirOp::Flush { dir: rng.below(2) as u8 },
                 2 => DirOp::Plant { dir: rng.below(2) as u8, m: rng.below(ns) as u8 },
                 3 => DirOp::Consolidate { dir: rng.below(2) as u8, threshold: *rng.pick(&[0u64, 400, 1000, 3000, 10_000, 100_000, 64 << 20]) },
-                4 => DirOp::Keyed { from: rng.below(2) as u8, to: 2, key: rng.below(4) as u8, flags: rng.below(8) as u8, valid_secs: *rng.pick(&[0u64, 1, 10, 1000, 100_000]) },
+                4 => DirOp::Keyed { from: rng.below(2) as u8, to: 2, key: rng.below(5) as u8, flags: rng.below(8) as u8, valid_secs: *rng.pick(&[0u64, 1, 10, 1000, 100_000]) },
                 5 => DirOp::Reopen { dir: rng.below(3) as u8 },
                 6 => DirOp::AdvanceClock { secs: *rng.pick(&[0u64, 1, 9, 10, 11, 999, 1000, 1001, 100_000, 1_000_000]) },
                 7 => DirOp::MtimeStep { ms: *rng.pick(&[0i64, 0, 1, 1000, -1000, -1]) },
@@ -1236,7 +1264,7 @@ fn gen(seed: u64, run: u64, focus: &str, tier: Tier) -> Plan {
             pre.extend(ops.drain(..));
             ops = pre;
             for _ in 0..rng.range(1, 3) {
-                ops.push(DirOp::Keyed { from: rng.below(2) as u8, to: 2, key: rng.below(4) as u8, flags: rng.below(8) as u8, valid_secs: *rng.pick(&[0u64, 1, 10, 1000, 100_000]) });
+                ops.push(DirOp::Keyed { from: rng.below(2) as u8, to: 2, key: rng.below(5) as u8, flags: rng.below(8) as u8, valid_secs: *rng.pick(&[0u64, 1, 10, 1000, 100_000]) });
                 if rng.chance(1, 2) {
                     ops.push(DirOp::AdvanceClock { secs: *rng.pick(&[0u64, 1, 9, 10, 11, 999, 1000, 1001, 100_000]) });
                 }
@@ -1256,7 +1284,7 @@ fn gen(seed: u64, run: u64, focus: &str, tier: Tier) -> Plan {
                         _ => {},
                     }
                     for _ in 0..rng.range(1, 2) {
-                        ops.push(DirOp::KeyedExternal { from: rng.below(2) as u8, to: 2, key: rng.below(4) as u8, flags: rng.below(8) as u8, valid_secs: *rng.pick(&[0u64, 1, 1000, 100_000]) });
+                        ops.push(DirOp::KeyedExternal { from: rng.below(2) as u8, to: 2, key: rng.below(5) as u8, flags: rng.below(8) as u8, valid_secs: *rng.pick(&[0u64, 1, 1000, 100_000]) });
                     }
                     if rng.chance(1, 3) {
                         ops.push(DirOp::AdvanceClock { secs: *rng.pick(&[1u64, 2, 11]) });
@@ -1564,6 +1592,68 @@ fn run_setops_direct(p: &Plan, models: &[ModelShard], rep: &mut RunReport) {
                 }
             },
             Err(e) => rep.violate("C10.b", "difference-error", format!("{e}")),
+        }
+    }
+    // path-level union / difference (`shard_file_union` / `shard_file_difference`): the result goes to a path the
+    // caller chooses — a fresh one or, accumulating in place, the path of one of the operands
+    if !models.is_empty() && p.query_seed % 3 == 0 {
+        let dir = scratch_dir("fo");
+        let _g = ScratchGuard(dir.clone());
+        let a = &models[0];
+        let b = &models[1 % models.len()];
+        let (_sa, ba) = serialize_model(a);
+        let (_sb, bb) = serialize_model(b);
+        for (op_i, opname) in ["file-union", "file-difference"].iter().enumerate() {
+            let alias = (p.query_seed / 3 + op_i as u64) % 3;
+            let pa = dir.join(format!("a{op_i}.mdb"));
+            let pb = dir.join(format!("b{op_i}.mdb"));
+            if std::fs::write(&pa, &ba).is_err() || std::fs::write(&pb, &bb).is_err() {
+                rep.harness_fault = Some("could not write the operands of a path-level set operation".into());
+                return;
+            }
+            let out = match alias {
+                0 => dir.join(format!("out{op_i}.mdb")),
+                1 => pa.clone(),
+                _ => pb.clone(),
+            };
+            let clause = if op_i == 0 { "C10.a" } else { "C10.b" };
+            let want = if op_i == 0 {
+                union_models(a, b)
+            } else {
+                let mut w = ModelShard::default();
+                w.files.extend(b.files.iter().filter(|(k, _)| !a.files.contains_key(*k)).map(|(k, v)| (*k, v.clone())));
+                w.xorbs.extend(b.xorbs.iter().filter(|(k, _)| !a.xorbs.contains_key(*k)).map(|(k, v)| (*k, v.clone())));
+                w
+            };
+            let r = if op_i == 0 {
+                mdb_shard::set_operations::shard_file_union(&pa, &pb, &out)
+            } else {
+                mdb_shard::set_operations::shard_file_difference(&pa, &pb, &out)
+            };
+            rep.count(["probe:path_level_set_op_into_fresh_path", "probe:path_level_set_op_into_first_operand", "probe:path_level_set_op_into_second_operand"][alias as usize], 1);
+            match r {
+                Ok((h, info)) => {
+                    let bytes = std::fs::read(&out).unwrap_or_default();
+                    let before = rep.violations.len();
+                    check_serialised(rep, "C10", opname, &bytes, &want, true);
+                    for v in rep.violations.iter_mut().skip(before).filter(|v| v.clause == "C10.a") {
+                        v.clause = clause.into();
+                    }
+                    if h_of(&h) != ref_chunk_hash(&bytes) {
+                        rep.violate("C10.c", &format!("{opname}:returned-hash"), format!("returned hash {} is not the hash of the {} bytes written", ref_hex(&h_of(&h)), bytes.len()));
+                    }
+                    if info.num_bytes() != bytes.len() as u64 {
+                        rep.violate("C10.c", &format!("{opname}:num-bytes"), format!("returned info says {} bytes, the file has {}", info.num_bytes(), bytes.len()));
+                    }
+                    // an operand that is not the output keeps its bytes
+                    for (pth, orig, which) in [(&pa, &ba, "first"), (&pb, &bb, "second")] {
+                        if *pth != out && std::fs::read(pth).ok().as_deref() != Some(&orig[..]) {
+                            rep.violate(clause, &format!("{opname}:operand-changed"), format!("the {which} operand's file was changed by the operation"));
+                        }
+                    }
+                },
+                Err(e) => rep.violate(clause, &format!("{opname}:error"), format!("output path = {}: {e}", ["a fresh path", "the first operand", "the second operand"][alias as usize])),
+            }
         }
     }
 }
